@@ -24,6 +24,7 @@ func init() {
 				continue
 			}
 			for _, r := range p.Rules {
+				r, _, _ = ruleRef(r)
 				fam := r
 				if i := strings.IndexByte(r, '.'); i > 0 {
 					fam = r[:i]
